@@ -534,3 +534,5 @@ def check(run):
     r7_accept_implies_verified(run)
     r8_receiver_addresses(run, ctx)
     r9_handlers(run)
+    from ..common_rules import misplaced_rule
+    misplaced_rule(run, "R10", {"entity", "server", "request"}, "request parsing")
